@@ -126,7 +126,11 @@ class DampedOscillation(Contract):
         rp, rv = _params(S, "g", n)
         t = np.array([-0.5, 0.25])
         gaxis = np.array([500.0, 600.0])
-        fmax = 1 / (2 * 0.03 * 0.75)
+        if case.get("axis_dtype"):
+            # native sweep: axes as loaded from files (integer time / wavelength coordinates)
+            t = np.array([-1, 0, 1]).astype(case["axis_dtype"])
+            gaxis = np.array([500, 600]).astype(case["axis_dtype"])
+        fmax = 1 / (2 * 0.03 * float(t[1] - t[0]))
         for f in fv:
             S.require(L.lt(f * 0.03 * 2 * np.pi, fmax), "below the Nyquist frequency of the time axis (no folding)")
         signs = []
@@ -219,6 +223,7 @@ def _oscillation_sweep(self, tier, seed):
     from contracts.common import native_sweep
 
     cases = [{"irf": irf, "n": n, "gaussians": (1 if irf == "none" else 3), "rates": "nonneg"} for irf in ("none", "plain", "shift") for n in (4, 6)]
+    cases += [{"irf": irf, "n": 2, "gaussians": (1 if irf == "none" else 3), "rates": "nonneg", "axis_dtype": "int64"} for irf in ("none", "plain", "shift")]
 
     def env(case, rng):
         e = {f"f_{i}": round(rng.uniform(0.5, 20.0), 3) for i in range(case["n"])}
